@@ -80,4 +80,17 @@ CHECKS["C14"] = {
     "engine": "tlc+vh",
 }
 
+CHECKS["C13"] = {
+    "category": "model_checking",
+    "text": "spec/Sinks.tla states the all-or-nothing write_all law and the encode-fits law for the six Write sinks; TLC enumerates every sequence "
+            "of write_all calls with lengths 0..cap+1 for small capacities and each is replayed on the real sinks between canaries (results, "
+            "content, position). Token sequences of generated items are encoded into every sink kind at every capacity 0..=len+1 and TLC checks "
+            "each recorded outcome: success iff it fits, identical bytes in every sink, write error otherwise with a prefix left behind, position = "
+            "bytes accepted, nothing outside the sink touched.",
+    "design_ref": "DESIGN.md section 6, C13",
+    "note": "Trusted: TLC; the reference encoding is the encoder's own Vec output (sink independence is what is decided here, byte correctness is C03).",
+    "technique": "TLA+ spec of the sink laws (Sinks) + TLC enumeration of write sequences + replay on the real sinks + trace validation over all capacities",
+    "engine": "tlc+vh",
+}
+
 NOT_YET = "check not built yet in this round (planned in DESIGN.md section 10); not claimed until it exists"
